@@ -338,6 +338,28 @@ impl Context {
         task.set_data(&self.vars());
         self.emit_task(task)?;
 
+        // nothing of an aborted process can be acted on any more:
+        // close the open tasks of the other branches before the ancestors report the end
+        let mut ancestors = Vec::new();
+        let mut up = task.parent();
+        while let Some(p) = up {
+            ancestors.push(p.id.clone());
+            up = p.parent();
+        }
+        let mut others = self.proc.tasks();
+        others.sort_by(|a, b| a.timestamp.cmp(&b.timestamp));
+        for t in others.iter() {
+            if t.id == task.id || ancestors.contains(&t.id) || t.state().is_completed() {
+                continue;
+            }
+            if t.state().is_pending() || t.state().is_none() {
+                t.set_state(TaskState::Skipped);
+            } else {
+                t.set_state(TaskState::Aborted);
+            }
+            self.emit_task(t)?;
+        }
+
         // abort all running task
         let ctx = self;
         let mut parent = task.parent();
